@@ -418,7 +418,13 @@ func compact(res *sched.Result) string {
 // are caught here (the detector aborts the process with exit code 66, which
 // the caller reports).  This pass samples schedules; it decides nothing by
 // itself and is reported separately.
+// FreeRunning is set while RaceRun executes scenario bodies as ordinary goroutines: oracles that depend on
+// the order in which threads report (which only the cooperative scheduler fixes) must not be applied then.
+var FreeRunning bool
+
 func RaceRun(r *ev.Run, scs []Scenario, iters int) {
+	FreeRunning = true
+	defer func() { FreeRunning = false }()
 	for i := range scs {
 		sc := &scs[i]
 		if sc.RaceUnsafe {
